@@ -180,20 +180,30 @@ def run(ctx):
                 ctx.violation("correspondence", f"model reports {m[:3]} for the fault on line {want}: {text!r}",
                               {"op": "fault", "src": text, "correspondence": "Ckl.eval error position vs Interpreter.interpret"})
     # ---------------- errors inside module code name the module and the line within the module
-    mod_src = "def ok(x) x + 1;\n\ndef bad(x) do\n  def y = x;\n  y / 0\nend;\n\ndef bad2() error 'm'\n"
-    impl = session.ImplSession({"Modx.ckl": mod_src})
-    try:
-        for call, want in [("require Modx; Modx->bad(1)", 5), ("require Modx; Modx->bad2()", 8)]:
-            try:
-                impl.it.interpret(call, "main.ckl")
-                got = ('val',)
-            except CklRuntimeError as e:
-                got = (e.pos.filename if e.pos else None, e.pos.line if e.pos else None)
-            ctx.seen(("module", call))
-            if got != ("mod:Modx", want):
-                ctx.violation("oracle", f"`{call}`: error inside module Modx line {want} reported at {got}", {"op": "module-fault", "src": call, "module": mod_src})
-    finally:
-        impl.close()
+    mod_body = "def ok(x) x + 1;\n\ndef bad(x) do\n  def y = x;\n  y / 0\nend;\n\ndef bad2() error 'm'\n"
+    # the module text as it is on disk: starting with code, with blank / white-space-only lines, with comment lines, with a doc string that
+    # ends in a line break, with CRLF line ends — the line reported for an error inside the module is the line in the FILE
+    variants = [("", 0), ("\n\n", 2), ("  \n\t\n \n", 3), ("# header\n# more\n", 2), ("\n# c\n\n", 3), ("'doc string\nover lines\n' def documented(x) x;\n", 3),
+                ("\r\n\r\n", 2)]
+    for k, (prefix, shift) in enumerate(variants):
+        mod_src = prefix + mod_body
+        mname = f"Modx{k}"
+        impl = session.ImplSession({mname + ".ckl": mod_src})
+        try:
+            for call, want in [(f"require {mname}; {mname}->bad(1)", 5 + shift), (f"require {mname}; {mname}->bad2()", 8 + shift),
+                               (f"require {mname} import [bad as b_]; def wrap() b_(2); wrap()", 5 + shift)]:
+                try:
+                    impl.it.interpret(call, "main.ckl")
+                    got = ('val',)
+                except CklRuntimeError as e:
+                    got = (e.pos.filename if e.pos else None, e.pos.line if e.pos else None)
+                ctx.seen(("module", call))
+                ctx.count("module_fault_programs")
+                if got != ("mod:" + mname, want):
+                    ctx.violation("oracle", f"`{call}`: error inside module {mname} line {want} reported at {got} (the module file starts with {prefix!r})",
+                                  {"op": "module-fault", "src": call, "module": mod_src})
+        finally:
+            impl.close()
     # ---------------- correspondence of the scanner positions
     if ctx.build.ok and reqs:
         resp = core.run_driver(reqs)
